@@ -102,6 +102,9 @@ def run(chk):
     if witness_falsy_run():          # before any world exists: the default graph is still small
         chk.finding_reproduced(KNOWN_FALSY_RUN)
         chk.witnesses.append("dr.run(falsy component) evaluates the default graph")
+    # FIRST (cheap, names concrete inputs): the graphs the generators hand out are values; the incremental / pooled drivers
+    # called WITHOUT a broker (one broker per sub-graph handed back) and with one; loaded archives through every entry point
+    fresh_broker_stream(chk, 160 if quick else 3000)
     lines, impl, cases = [], [], []
     sub_lines, sub_impl, sub_cases = [], [], []
     summary = []
@@ -218,8 +221,16 @@ def run(chk):
             b = world.new_broker(seeds, ss)
             W.instrument(world, b)
             edges = world.edge_snapshot()
+            if WI.too_costly(name):
+                chk.count("schedule-skipped-after-aborts")
+                return
             try:
-                fn(b)
+                _out, _err = WI.guarded_call(world, graph, b, lambda: fn(b))
+                if isinstance(_err, str):
+                    chk.failure("schedule %s %s" % (name, _err), dict(base_case, order=None, schedule=name))
+                    return
+                if _err is not None:
+                    raise _err
                 why = world.edges_changed(edges)
                 if why:
                     chk.failure("schedule %s: %s" % (name, why), dict(base_case, order=None, schedule=name))
@@ -330,8 +341,6 @@ def run(chk):
     chk.sample({"case": cases[0], "impl": impl[0]})
     chk.compare("get_subgraphs-vs-model", sub_cases, sub_impl, run_driver("Dr", sub_lines))
     chk.sample({"get_subgraphs": sub_lines[0].split("\t")[1:], "impl": sub_impl[0]})
-    # the incremental / pooled drivers called WITHOUT a broker (one broker per sub-graph handed back) and with one
-    fresh_broker_stream(chk, 160 if quick else 3000)
     # the default graph (no components given), with cluster-group components around, in fresh interpreters
     default_graph_cases(chk, 6 if quick else 60)
     # hash seeds: the same worlds regenerated and evaluated in child interpreters
@@ -505,6 +514,10 @@ def fresh_schedules(idx, dropped):
         sch.append("run_all/threads")
     if idx % 3 == 1:
         sch.append("run_all/sync-pool")
+    if idx % 4 == 1:
+        sch.append("run_all/gate-pool-1")
+    if idx % 4 == 3:
+        sch.append("run_all/gate-pool-n")
     if idx % 6 == 2:
         sch.append("run_all/falsy-pool")
     if dropped is None and idx % 2 == 0:
@@ -544,6 +557,23 @@ def fresh_broker_stream(chk, n_worlds):
                 impl.append(text)
                 cases.append(dict(base, schedule=name, passed=True))
                 chk.count("passed-broker-schedule")
+        # CLASS: the loaded-archive branch of dr.run through every entry point (shapes DESIGN §6 admits)
+        pre = WI.archive_pre(world, graph, seeds, rng)
+        if pre is not None and len(pre) > len(seeds):
+            asch = ["run", "run_incremental/list", "run_incremental/lazy", "run_all", "generate_incremental+run", "run_all/defer",
+                    "run_all/sync-pool"] + (["run_all/gate-pool-1"] if idx % 2 else ["run_all/gate-pool-n"]) + (["run_all/threads"] if idx % 4 == 0 else [])
+            afails, arows = WI.archive_check(world, graph, pre, ss, rng, asch)
+            abase = dict(base, op="loaded-archive", pre=pre)
+            for name, why in afails:
+                chk.failure(why, dict(abase, schedule=name))
+            chk.count("loaded-archive-world")
+            chk.count("loaded-archive-schedules", len(arows))
+            if arows:
+                # model: the pruning loop per sub-graph (IV.Dr.runTaskArchive), one shared broker
+                lines.extend(world.lines(pre))
+                lines.append(WI.incr_line(world, graph, True, ss, "s").replace("incr\t", "incra\t", 1))
+                impl.append(arows[0][1])
+                cases.append(dict(abase, schedule="run", passed=True))
         # history: a datasource that already took part becomes one more implementation of a registry point (the sub-graphs
         # may merge, the registry points of failures change); the same oracle and tie on the graph as it is afterwards
         cands = world.late_candidates(set(world.ids[k] for k in graph)) if dropped is None else []
@@ -563,13 +593,19 @@ def fresh_broker_stream(chk, n_worlds):
                     cases.append(dict(lbase, schedule=name, passed=False))
             chk.count("fresh-brokers:late-registration")
     out = run_driver("C04", lines)
-    model = [o for l, o in zip(lines, out) if l.startswith("incr\t")]
-    bad = [o for l, o in zip(lines, out) if not l.startswith("incr\t") and o != "ok"]
+    model = [(o if l.startswith("incr\t") else archive_answer(o)) for l, o in zip(lines, out) if l.startswith(("incr\t", "incra\t"))]
+    bad = [o for l, o in zip(lines, out) if not l.startswith(("incr\t", "incra\t")) and o != "ok"]
     if bad:
         chk.tie_broken("protocol", "driver C04 rejected %d world lines" % len(bad), bad[:3])
     chk.compare("incremental-brokers-vs-model", cases, impl, model)
     if cases:
         chk.sample({"incremental": cases[0]["schedule"], "impl": impl[0], "model": model[0]})
+
+
+def archive_answer(ans):
+    """Drivers/C04 `incra` answers like `incr` (all on identity 0): the contents of that one object"""
+    part = ans.split(" // ")[0]
+    return part.split("]", 1)[1] if part.startswith("#") and "]" in part else ans
 
 
 def replay_fresh(case):
@@ -580,6 +616,14 @@ def replay_fresh(case):
     if case.get("dropped") is not None:
         graph.pop(world.comps[case["dropped"]], None)
     seeds = [tuple(x) for x in case.get("seeds", [])]
+    if case.get("op") == "loaded-archive":
+        fails, rows = WI.archive_check(world, graph, [tuple(x) for x in case["pre"]], case["store_skips"], random.Random(0))
+        for name, text in rows:
+            print("%s: %s" % (name, text))
+        for name, why in fails:
+            print("oracle:", why)
+        print("property violated on this input" if fails else "property holds on this input")
+        return 1 if fails else 0
     if case.get("late"):
         WI.fresh_check(world, graph, random.Random(0), ["run_incremental/list"], case["targets"], case["store_skips"], seeds)
         world.late_register(*case["late"])
@@ -628,7 +672,7 @@ def interleaved_subgraphs(world, ga, gb, subs_b_alone):
 
 def _replay_once(data):
     case = data["case"]
-    if case.get("op") == "fresh-brokers":
+    if case.get("op") in ("fresh-brokers", "loaded-archive"):
         return replay_fresh(case)
     if case.get("op") == "default-graph":
         env = dict(os.environ, VERIF_REPO=REPO)
